@@ -35,7 +35,14 @@ pub enum Op10
     /// without a flush): it runs at the next operation that flushes the world - possibly in the middle of a garbage
     /// collection (despawning flushes), where its runner starts a collection of its own. At most one pending at a time.
     QueueRun,
+    /// One free clone of `.0`'s signal is moved into a component of entity `.1` (an ownership chain between
+    /// auto-despawned entities: the clone is dropped when `.1` is despawned - possibly in the middle of a collection
+    /// pass). At most one clone is held this way at a time.
+    Give(u8, u8),
 }
+
+#[derive(Component)]
+struct Holds(#[allow(dead_code)] Vec<AutoDespawnSignal>);
 
 /// Burst sizes offered by `enabled` (set per tier).
 pub static BURST_SIZES: std::sync::Mutex<Vec<u16>> = std::sync::Mutex::new(Vec::new());
@@ -56,6 +63,10 @@ pub struct Model10
     pub resetups: u8,
     /// A system command waits on the world's command queue.
     pub queued: bool,
+    /// (entity whose clone is held, owner entity).
+    pub held: Option<(u8, u8)>,
+    /// The last collection doomed an entity while it was running (a held clone dropped by a despawn of the pass).
+    pub chain: bool,
 }
 
 impl Model10
@@ -66,7 +77,27 @@ impl Model10
     {
         if !self.alive[e] { return; }
         self.alive[e] = false;
+        self.release_held(e);
         for k in 0..N_ENTS { if self.parent[k] == Some(e as u8) { self.kill_recursive(k); } }
+    }
+
+    /// The owner `e` is gone: the clone it held is dropped.
+    fn release_held(&mut self, e: usize)
+    {
+        if let Some((h, o)) = self.held
+        {
+            if o as usize == e
+            {
+                self.held = None;
+                self.clones[h as usize] -= 1;
+                if self.clones[h as usize] == 0 { self.doomed[h as usize] = true; }
+            }
+        }
+    }
+
+    fn free_clones(&self, e: usize) -> u8
+    {
+        self.clones[e] - if matches!(self.held, Some((h, _)) if h as usize == e) { 1 } else { 0 }
     }
 
     fn is_ancestor(&self, a: usize, of: usize) -> bool
@@ -92,8 +123,12 @@ impl Model10
             let i = e as usize;
             // one signal per entity (two independent signals for one entity are not covered by the statement)
             if !self.prepared[i] && self.alive[i] && total < MAX_CLONES { v.push(Op10::Prepare(e)); }
-            if self.clones[i] > 0 && total < MAX_CLONES { v.push(Op10::Clone(e)); }
-            if self.clones[i] > 0 { v.push(Op10::Drop(e)); v.push(Op10::DropUnwinding(e)); }
+            if self.free_clones(i) > 0 && total < MAX_CLONES { v.push(Op10::Clone(e)); }
+            if self.free_clones(i) > 0 { v.push(Op10::Drop(e)); v.push(Op10::DropUnwinding(e)); }
+            if self.free_clones(i) > 0 && self.held.is_none() && !self.queued
+            {
+                for o in 0..N_ENTS as u8 { if o != e && self.alive[o as usize] { v.push(Op10::Give(e, o)); } }
+            }
             if self.alive[i] { v.push(Op10::ManualDespawn(e)); }
             for p in 0..N_ENTS as u8
             {
@@ -117,9 +152,18 @@ impl Model10
     /// What a complete collection does (also performed by the runner of a system command).
     fn collect(&mut self)
     {
-        for i in 0..N_ENTS
+        // the real pass drains its channel until it is empty: an entity doomed by a despawn of this pass goes in this pass
+        self.chain = false;
+        let mut round = 0;
+        while self.doomed.iter().any(|d| *d)
         {
-            if self.doomed[i] { self.doomed[i] = false; self.kill_recursive(i); }
+            if round > 0 { self.chain = true; }
+            let now = self.doomed;
+            for i in 0..N_ENTS
+            {
+                if now[i] { self.doomed[i] = false; self.kill_recursive(i); }
+            }
+            round += 1;
         }
         if self.burst == 1 { self.burst = 2; }
     }
@@ -136,6 +180,7 @@ impl Model10
         match op
         {
             Op10::QueueRun => { self.queued = true; }
+            Op10::Give(e, o) => { self.held = Some((e, o)); }
             Op10::Prepare(e) => { self.prepared[e as usize] = true; self.clones[e as usize] = 1; }
             Op10::Clone(e) => { self.clones[e as usize] += 1; }
             Op10::Drop(e) | Op10::DropUnwinding(e) =>
@@ -157,7 +202,7 @@ impl Model10
             {
                 // plain (non-recursive) despawn: children stay, without a parent
                 let i = e as usize;
-                self.alive[i] = false;
+                if self.alive[i] { self.alive[i] = false; self.release_held(i); }
                 for k in 0..N_ENTS { if self.parent[k] == Some(e) { self.parent[k] = None; } }
                 self.parent[i] = None;
             }
@@ -200,6 +245,11 @@ pub fn run10(hist: &[Op10]) -> StepResult<Key10>
         {
             Op10::Resetup => {}
             Op10::QueueRun => { world.commands().queue(idle_sys); }
+            Op10::Give(e, o) =>
+            {
+                let s = signals[e as usize].pop().expect("free clone");
+                world.entity_mut(ents[o as usize]).insert(Holds(vec![s]));
+            }
             Op10::Prepare(e) =>
             {
                 let s = world.resource::<AutoDespawner>().prepare(ents[e as usize]);
@@ -236,6 +286,10 @@ pub fn run10(hist: &[Op10]) -> StepResult<Key10>
         if last
         {
             let world = app.world_mut();
+            // An entity doomed *during* a pass must be gone after the first collection that starts afterwards: the
+            // real pass takes it at once, the statement also allows the next one, so chains are judged after a second pass.
+            let chained = *op == Op10::Gc && model.chain;
+            if chained { garbage_collect_entities(world); }
             for i in 0..N_ENTS
             {
                 let obs = world.get_entity(ents[i]).is_ok();
